@@ -39,6 +39,11 @@ QUICK_CONFIGS = [
     (("std", "auto-collect", "weak-ptrs", "cleaners"), True),                   # everything minus finalization
 ]
 THOROUGH_CONFIGS = [(fs, dbg) for fs in ALL_FEATURE_SETS for dbg in (True, False)]
+# the crate's internal extra-assertions feature: the rules must hold (and stay silent) there too
+THOROUGH_CONFIGS += [
+    (("std", "auto-collect", "finalization", "weak-ptrs", "cleaners", "pedantic-debug-assertions"), True),
+    (("std", "auto-collect", "finalization", "pedantic-debug-assertions"), True),
+]
 
 
 def cfg_name(features, debug):
